@@ -85,11 +85,20 @@ def key(E, facts, text):
     return dict(phf=bool(E and E["phf"]), phf_dup_key_shape=dup)
 
 
+def module(E):
+    from .. import strgen as SG
+    src = SG.parse_module(E)
+    # the same scope holds another use_phf enum and user items called PHF / phf: generated statics must not collide
+    src += ("#[derive(Debug, Clone, PartialEq, strum::EnumString)]\n#[strum(use_phf)]\npub enum Sibling%d { Left, #[strum(serialize = \"r\")] Right }\n"
+            "pub const PHF: u8 = 1;\npub fn phf() -> u8 { PHF }\n" % E["id"])
+    return src
+
+
 def run(tier, seed, rep):
     sz = SIZES[tier]
     rng = random.Random(seed * 86028121 + 17)
     r = PC.run_parse_check(PROP, "c16", rep, candidates(rng, sz["sample"]), rng, seed, sz["cap"], sz["flips"],
-                           lambda: model(tier), features=("derive", "phf"), mismatch_key=key,
+                           lambda: model(tier), features=("derive", "phf"), mismatch_key=key, module_fn=module,
                            in_domain=lambda f: f["wf"] and (f["no"] or f["pc"]),
                            what="phf-backed parser differs from the plain one (ParseSpec)")
     twins = sum(1 for E in r["defs"] if E.get("twin_of") in r["by_id"])
